@@ -12,7 +12,21 @@ use http::{HeaderMap, Request, Response};
 use std::task::{Context, Poll, Waker};
 use tokio::io::AsyncWrite;
 
-use std::sync::{Arc, Mutex};
+use std::sync::Arc;
+#[cfg(not(feature = "verif-hooks"))]
+use std::sync::Mutex;
+
+// Verification hook: the same two mutexes with a lock-order monitor.
+#[cfg(feature = "verif-hooks")]
+use crate::verif::lock_order::Mutex;
+#[cfg(feature = "verif-hooks")]
+impl crate::verif::lock_order::Ranked for Inner {
+    const RANK: u8 = 1;
+}
+#[cfg(feature = "verif-hooks")]
+impl<T> crate::verif::lock_order::Ranked for Buffer<T> {
+    const RANK: u8 = 2;
+}
 use std::{fmt, io};
 
 #[derive(Debug)]
